@@ -71,11 +71,65 @@ def judge(ctx, world, op, step, history, failure, case, extra=None):
         )
 
 
+def invalidated_dependants(world, step, op_attrs):
+    """Attributes (transitively) declared invalidated_by one of `op_attrs` (or '*') in the receiver's class."""
+    if step.recv is None:
+        return set()
+    cname = dr.class_name(world, step.recv)
+    attrs = world.decl.attrs_of(cname)
+    out, frontier = set(), set(op_attrs)
+    while frontier:
+        nxt = set()
+        for n, (_o, a) in attrs.items():
+            if n not in out and n not in op_attrs and a.invalidated_by and (set(a.invalidated_by) & frontier or "*" in a.invalidated_by):
+                nxt.add(n)
+        out |= nxt
+        frontier = nxt
+    return out
+
+
 SCOPES = ("recv", "args", "all", "classes")
+
+
+def directed_known_findings(ctx):
+    """Fixed witnesses of the open known findings, so each is observed (and printed) on every run whatever the seed."""
+    decl = cg.ModuleDecl(
+        classes=[
+            cg.ClassDecl(
+                name="M",
+                attrs=[
+                    cg.AttrDecl(tk="int", default=["lit", cg.R_lit(1)]),
+                    cg.AttrDecl(tk="str", default=["attr", cg.R_lit("a")], invalidated_by=("x",), preparer="upper"),
+                ],
+            )
+        ]
+    )
+    world = cg.World(decl)
+    try:
+        history = [{"kind": "construct", "cls": "M", "args": [], "kwargs": {"label": cg.R_lit("b")}}]
+        for op in (
+            {"kind": "setattr", "target": 0, "attr": "x", "value": cg.R_lit(5), "args": [cg.R_lit(5)], "hkind": "setattr", "validity": "valid", "form": "assign", "inplace": True},
+            {"kind": "helper", "target": 0, "name": "with_x", "attr": "x", "args": [cg.R_lit(5)], "kwargs": {"_inplace": True}, "hkind": "with", "validity": "valid", "form": "value", "inplace": True},
+        ):
+            insts = dr.replay(world, history)
+            world.probe.arm("prep:label", 0)
+            st = dr.execute(world, insts, op, scopes=SCOPES)
+            fired = world.probe.fired
+            world.probe.reset()
+            ctx.count("directed_cases")
+            if fired and st.outcome == "raised":
+                judge(ctx, world, op, st, history, "callback:prep", ["directed", op["hkind"]], {
+                    "callback": "prep", "invocation": 0, "invocations_total": 1,
+                    "callback_on_invalidated_dependant": "label" in invalidated_dependants(world, st, {"x"}),
+                })
+    finally:
+        world.close()
 
 
 def run(ctx, params):
     rng = ctx.rng
+    if params.get("directed"):
+        return directed_known_findings(ctx)
     for ci in range(params["cases"]):
         decl = cg.gen_module(rng, {"frozen": False})
         world = cg.World(decl)
@@ -110,7 +164,12 @@ def run(ctx, params):
                             ctx.count("callback_faults_swallowed")
                             continue
                         ctx.count("callback_faults_judged")
-                        judge(ctx, world, op, st2, history, f"callback:{name.split(':')[0]}", case + [name, i], {"callback": name.split(":")[0], "invocation": i, "invocations_total": sum(1 for n_, _ in log if n_ == name)})
+                        cb_attr = name.split(":")[1] if ":" in name else None
+                        op_attrs = set((op.get("attr") or "").split(",")) - {""}
+                        judge(ctx, world, op, st2, history, f"callback:{name.split(':')[0]}", case + [name, i], {
+                            "callback": name.split(":")[0], "invocation": i, "invocations_total": sum(1 for n_, _ in log if n_ == name),
+                            "callback_on_invalidated_dependant": bool(cb_attr and cb_attr not in op_attrs and cb_attr in invalidated_dependants(world, st2, op_attrs)),
+                        })
                 dr.register_result(world, insts, step)
                 history.append(op)
         finally:
@@ -119,5 +178,5 @@ def run(ctx, params):
 
 def plan(tier, seed):
     if tier == "quick":
-        return [{"shard": i, "cases": 60, "judged_per_case": 8, "fault_fraction": 0.5} for i in range(16)]
-    return [{"shard": i, "cases": 1200, "judged_per_case": 10, "fault_fraction": 0.6} for i in range(32)]
+        return [{"directed": True}] + [{"shard": i, "cases": 60, "judged_per_case": 8, "fault_fraction": 0.5} for i in range(16)]
+    return [{"directed": True}] + [{"shard": i, "cases": 1200, "judged_per_case": 10, "fault_fraction": 0.6} for i in range(32)]
